@@ -23,6 +23,8 @@ type CEnv struct {
 	cells     map[string]V // captured variables by name: the address of the variable
 	pol       bool         // current polarity (true = positive)
 	fn        string
+	exitMem   map[int]map[string]*MemVer // post-conditions: the memories when loop k was left (atexit(k, ...))
+	inGhost   bool               // evaluating the post-conditions of a ghost call to fn (a law may mention fn itself)
 	skolems   map[*CExpr]V       // forall nodes Skolemised ahead of time (at function entry)
 	harvest   bool               // collect instantiation terms instead of building formulas
 	curMem    map[string]*MemVer // frozen "current" memories (late instantiation of an earlier assumption)
@@ -172,7 +174,7 @@ func (env *CEnv) eval(e *CExpr) V {
 			cfail("bad string literal %s", e.Tok)
 		}
 		bs := []byte(s)
-		return V{K: KSeq, Seq: &Seq{Len: bvLit(uint64(len(bs)), 64), Byte: func(i string) string {
+		return V{K: KSeq, Seq: &Seq{Max: len(bs), Len: bvLit(uint64(len(bs)), 64), Byte: func(i string) string {
 			t := bvLit(0, 8)
 			for k := len(bs) - 1; k >= 0; k-- {
 				t = ite(eq(i, bvLit(uint64(k), 64)), bvLit(uint64(bs[k]), 8), t)
@@ -1008,6 +1010,19 @@ func (env *CEnv) call(e *CExpr) V {
 		env.inOld = true
 		defer func() { env.inOld = saved }()
 		return arg(0)
+	case "atexit":
+		// atexit(k, e): e read in the memory as it was when loop k was left through its head
+		if len(e.Args) != 2 || e.Args[0].Op != "lit" {
+			cfail("atexit(k, expr) needs a loop ordinal")
+		}
+		k, err := strconv.Atoi(e.Args[0].Tok)
+		if err != nil || env.exitMem == nil || env.exitMem[k] == nil {
+			cfail("atexit: loop %s was not left through its head on this path (guard the clause with loopdone_%s)", e.Args[0].Tok, e.Args[0].Tok)
+		}
+		savedIn, savedOld := env.inOld, env.oldMem
+		env.inOld, env.oldMem = true, env.exitMem[k]
+		defer func() { env.inOld, env.oldMem = savedIn, savedOld }()
+		return arg(1)
 	case "athead":
 		// the argument read in the memory at the head of the current loop iteration
 		if env.headMem == nil {
@@ -1257,6 +1272,19 @@ func (env *CEnv) call(e *CExpr) V {
 	case "tid", "rtype":
 		// tid(T): the type word of an interface holding a value of basic type T;
 		// rtype(T): reflect.TypeOf of such a value
+		if len(e.Args) == 1 && e.Args[0].Op == "str" && e.Tok == "rtype" {
+			// rtype("pkg.Type"): reflect.TypeOf of a value of that named type
+			name, err := strconv.Unquote(e.Args[0].Tok)
+			if err != nil {
+				cfail("rtype: %v", err)
+			}
+			nt := env.st.x.namedType(name)
+			if nt == nil {
+				cfail("rtype: unknown type %s", name)
+			}
+			id := env.st.x.typeID(nt)
+			return V{K: KTuple, Fs: []V{vPtr(app("rtypT", id), nil), vPtr(app("rtypD", id), &Prov{Space: "H", Region: "meta"})}}
+		}
 		if len(e.Args) == 1 && e.Args[0].Op == "str" && e.Tok == "tid" {
 			// tid("pkg.Type") / tid("*pkg.Type"): the type word of an interface holding a value of that named type
 			name, err := strconv.Unquote(e.Args[0].Tok)
@@ -1562,10 +1590,14 @@ func (env *CEnv) ghostCall(e *CExpr) V {
 	if len(results) == 1 {
 		vars["result"] = results[0]
 	}
-	sub := &CEnv{st: st, oldMem: env.oldMem, vars: vars, tparam: tp, fn: key, inOld: env.inOld}
+	sub := &CEnv{st: st, oldMem: env.oldMem, vars: vars, tparam: tp, fn: key, inOld: env.inOld, inGhost: true}
 	for _, en := range con.Ensures {
 		if mentionsCallRecords(en.Expr) {
 			continue
+		}
+		if env.inGhost && env.fn == key {
+			// a law of key that mentions key itself: the inner application is the bare function
+			break
 		}
 		t, err := sub.evalBool(en.Expr)
 		if err != nil {
